@@ -249,8 +249,17 @@ def check_forms(run, A):
     st = [e for e in g.events if e.kind == 'store']
     oks = any(strip_views(e.term.args[1]).op == 'param' and strip_views(e.term.args[1]).args[0] == 'source_axis' for e in st)
     eqs = [t for e in g.events if e.term is not None for t in walk_terms(e.term) if t.op == 'cmp' and t.args[0] == 'Eq' and any(is_call_to(x, 'numpy.arange') for x in walk_terms(t.args[2]))]
-    reshaped_grid = any(is_call_to(x, 'numpy.reshape') and any(is_call_to(y, 'numpy.arange') for y in walk_terms(call_arg(x, 0))) for t_ in eqs for x in walk_terms(t_.args[2]))
-    if ((not st and eqs) or not eqs) and not reshaped_grid:
+    compared = [t for e in g.events if e.term is not None for t in walk_terms(e.term) if t.op == 'cmp' and t.args[0] == 'Eq' and am
+                and any(y is am[0] for side in t.args[1:] if isinstance(side, T) for y in walk_terms(side))] + \
+               [t for r_ in ret_alts(g) for t in walk_terms(r_) if t.op == 'cmp' and t.args[0] == 'Eq' and am and any(y is am[0] for side in t.args[1:] if isinstance(side, T) for y in walk_terms(side))]
+    if am and not compared:
+        run.violation('FORM', 'ideal_binary_mask: compared with arange laid out along source_axis', fn.loc(), 'the arg-max index is never compared with the source indices: what is returned is '
+                      'the index of the winner, not a one-hot mask', construct=f'FORM::{q}::arange-axis')
+        eqs = None
+    reshaped_grid = eqs is not None and any(is_call_to(x, 'numpy.reshape') and any(is_call_to(y, 'numpy.arange') for y in walk_terms(call_arg(x, 0))) for t_ in eqs for x in walk_terms(t_.args[2]))
+    if eqs is None:
+        pass
+    elif ((not st and eqs) or not eqs) and not reshaped_grid:
         # no shape list is filled in at all: the grid of class indices is laid out in another way (expand_dims over the other axes, ...) - not read here
         run.unresolved('FORM', 'ideal_binary_mask: compared with arange laid out along source_axis', fn.loc(), 'the class index grid is not built by filling a shape list at [source_axis]')
     else:
